@@ -60,6 +60,7 @@ pub fn project_world(pid: &str, cmd: &str, arch: &str, out: &str, br: &str, is_r
             "C20" => stats.to_string(),
             "C09" | "C14" => (if out.contains("panic") { "panic" } else { "returns" }).to_string(),
             "C17" | "C01" | "C08" => full,
+            "C16" if arch == "a64" => full,
             _ => String::new(),
         },
         "find" | "max" => match pid {
@@ -526,6 +527,11 @@ pub fn run_history<H: ArchH>(rep: &mut Report, h: &Hist, hist_id: u64, all_gens:
                                 if r1.lr & !r0.mask != 0 {
                                     add_oracle(rep, &["C16"], "lr-unstripped", "lr has bits outside the mask".into(), context_of(&lines, here), &ans);
                                 }
+                                if r1.mask != r0.mask {
+                                    add_oracle(rep, &["C16"], "mask-replaced",
+                                        format!("the register set carries the mask {:#x} after the step instead of the caller's {:#x}: later steps strip with the wrong mask", r1.mask, r0.mask),
+                                        context_of(&lines, here), &ans);
+                                }
                             }
                         }
                         Err(Error::CouldNotReadStack(a)) => {
@@ -597,6 +603,20 @@ pub fn run_history<H: ArchH>(rep: &mut Report, h: &Hist, hist_id: u64, all_gens:
                             format!("sp decreased from {:#x} to {:#x} across a caller frame", obs.states[i - 1].1, st.1),
                             context_of(&lines, here), &ans);
                         break;
+                    }
+                }
+                // C16: every return address the walk reports is stripped with the caller's mask
+                // (the mask must survive every kind of step, also the uncacheable ones)
+                if let RegsAny::A(r0) = regs {
+                    for it in &obs.items {
+                        if let Some(v) = it.strip_prefix("ra:").and_then(|h| u64::from_str_radix(h, 16).ok()) {
+                            if v & !r0.mask != 0 {
+                                add_oracle(rep, &["C16"], "walk-reports-unstripped-address",
+                                    format!("the walk reports {v:#x}, which has bits outside the caller's mask {:#x}", r0.mask),
+                                    context_of(&lines, here), &ans);
+                                break;
+                            }
+                        }
                     }
                 }
                 if obs.items.iter().any(|s| s == "ra:0" || s == "ip:0" && *pc != 0) {
